@@ -16,7 +16,9 @@ SPECS = {
                    C + '_compute_new_subsample_indices', C + '_setup_fields'])],
     'C04': [('abacusnbody/data/bitpacked.py', ['unpack_rvint', '_unpack_rvint', 'unpack_pids', '_unpack_pids',
                                                'empty_bitpacked_arrays']),
-            ('abacusnbody/data/read_abacus.py', ['read_asdf'])],       # the caller that chooses box / ppd / dtype for the decoders
+            ('abacusnbody/data/read_abacus.py', ['read_asdf']),        # the callers that choose box / ppd / dtype for the decoders
+            (CHC, [C + '_load_subsamples', C + '_unpack_rv_subsamples', C + '_unpack_pid_subsamples'])],
+    'C05': [(CHC, [C + '_read_halo_info', C + '_load_halo_field'])],      # the reader that feeds the regenerated loaders
     'C06': [(TSC, ['_tsc_scatter', '_rightwrap', '_wrap_inplace', 'tsc_parallel', '_tsc_parallel', 'partition_parallel']),
             ('abacusnbody/analysis/cic.py', ['cic_serial', 'rightwrap']), (PS, ['get_field'])],
     'C07': [(TSC, ['tsc_parallel', '_tsc_parallel', 'partition_parallel'])],
